@@ -116,6 +116,12 @@ Fixpoint byte_size (t : ty) (v : val) {struct t} : Z :=
   | _, _ => 0
   end.
 
+Fixpoint strictly_ascending (l : list Z) : bool :=
+  match l with
+  | a :: ((b :: _) as r) => (a <? b) && strictly_ascending r
+  | _ => true
+  end.
+
 Definition U32_LIMIT : Z := 4294967296.
 Definition U64_LIMIT : Z := 18446744073709551616.
 
@@ -130,6 +136,7 @@ Fixpoint wf (t : ty) (v : val) {struct t} : bool :=
   | TUList it k, VUList items =>
       (zlen items <? U32_LIMIT) &&
       (zsum (map (fun kv => byte_size it (snd kv)) items) <? U32_LIMIT) &&
+      ((k =? 0)%nat || strictly_ascending (map (fun kv => le_decode (fst kv)) items)) &&   (* UnsizedMap: a BTreeMap *)
       forallb (fun kv => (length (fst kv) =? k)%nat && bytes_ok (fst kv) && wf it (snd kv)) items
   | TStruct ts, VStruct vs =>
       (fix go ts vs :=
@@ -166,4 +173,27 @@ Fixpoint ty_ok (last : bool) (t : ty) {struct t} : bool :=
   | TEnum rw vs =>
       negb (rw =? 0)%nat && (rw <=? 8)%nat &&
       (fix go vs := match vs with [] => true | (_, t) :: r => ty_ok last t && go r end) vs
+  end.
+
+(* every fixed-size leaf of a value has a valid bit pattern (bool in {0,1}, declared enum discriminant ...) *)
+Fixpoint valid_bits (t : ty) (v : val) {struct t} : bool :=
+  match t, v with
+  | TFixed c, VBytes bs => fvalid c bs
+  | TList c lw, VList items => forallb (fvalid c) items
+  | TRem, VBytes _ => true
+  | TUList it k, VUList items => forallb (fun kv => valid_bits it (snd kv)) items
+  | TStruct ts, VStruct vs =>
+      (fix go ts vs :=
+         match ts, vs with
+         | [], [] => true
+         | t :: ts', v :: vs' => valid_bits t v && go ts' vs'
+         | _, _ => false
+         end) ts vs
+  | TEnum rw vars, VEnum d p =>
+      (fix go vars :=
+         match vars with
+         | [] => false
+         | (d', t) :: r => if d =? d' then valid_bits t p else go r
+         end) vars
+  | _, _ => false
   end.
